@@ -76,10 +76,10 @@ def natList (j : Json) (k : String) : List Nat :=
 
 def cacheOf (s : String) : CacheId :=
   match s with
-  | "attr" => .attr | "sort" => .sort | "memo" => .memo | _ => .cdict
+  | "attr" => .attr | "sort" => .sort | "memo" => .memo | "bind" => .bind | _ => .cdict
 
 def cacheStr : CacheId → String
-  | .attr => "attr" | .sort => "sort" | .memo => "memo" | .cdict => "cdict"
+  | .attr => "attr" | .sort => "sort" | .memo => "memo" | .cdict => "cdict" | .bind => "bind"
 
 def keyOf (a : Array Json) : Key :=
   { c := cacheOf ((a[1]?.bind (·.getStr?.toOption)).getD ""),
@@ -114,7 +114,10 @@ def rfactsOf (j : Json) : RFacts :=
       | "underLock" => .underLock | "racy" => .racy | _ => base.errRead,
     ctxShared := match o.getObjVal? "ctxShared" with
       | .ok (.bool b) => fun _ => b
-      | _ => base.ctxShared }
+      | _ => base.ctxShared,
+    rebindRaises := match o.getObjVal? "rebindRaises" with
+      | .ok (.bool b) => b
+      | _ => base.rebindRaises }
 
 /-! ### encoding -/
 
@@ -138,6 +141,7 @@ def obsJson : Obs → Json
   | .val k v => Json.arr #[Json.str "val", Json.str (cacheStr k.c), Json.num k.id, Json.str (valStr v)]
   | .err e => Json.arr #[Json.str "err", optNatJson e]
   | .scr x => Json.arr #[Json.str "scr", optNatJson x]
+  | .exc => Json.arr #[Json.str "exc"]
 
 def respJson : Option Resp → Json
   | none => Json.null
